@@ -167,7 +167,7 @@ def _register_emit():
             ctx.prove("roundtrip.one_instruction", z3.BoolVal(len(parsed) == 1 and parsed[0][0] == op and parsed[0][2] == n))
             ctx.prove("roundtrip.parse(emit(op,arg,n)).arg == arg", Z(parsed[0][1]) == a.z)
             ctx.prove("post.bytes_read_by_cpython_as_arg", spec_oparg(out[1::2]) == a.z)
-        harness("blocks.emit_loop.roundtrip[n=%d]" % n, props=["C01", "C03", "C05"],
+        harness("blocks.emit_loop.roundtrip[n=%d]" % n, props=["C01", "C03", "C05", "C06"],
                 functions=["code_data._blocks.blocks_to_bytes", "code_data._blocks._parse_bytes", "code_data._blocks._instrsize"],
                 configs="all", notes="fragment of blocks_to_bytes; n code units, every operand in [-2^31, 2^31) with n >= _instrsize(arg)")(h)
 
